@@ -699,7 +699,7 @@ class Folder(object):
                     return Opaque('bool')
                 return self.truth(args[0], n, env)
             if base in SAFE_BUILTINS:
-                if any(isinstance(a, Opaque) for a in args):
+                if any(isinstance(a, (Opaque, ExtInstance)) for a in args):
                     return Opaque(base)
                 try:
                     r = SAFE_BUILTINS[base](*args, **kwargs)
